@@ -103,6 +103,155 @@ mod v {
     }
 }
 
+/// containers (a nested struct, a sequence of structs with a renamed leaf) that reach their parent directly
+/// or through a merge
+mod g2 {
+    use garde::Validate;
+    use serde::Deserialize;
+    #[derive(Debug, Deserialize, Validate)]
+    #[serde(rename_all = "camelCase")]
+    pub struct Item {
+        #[garde(length(min = 2))]
+        pub item_name: String,
+        #[garde(range(max = 9))]
+        pub sha_sum: u32,
+    }
+    #[derive(Debug, Deserialize, Validate)]
+    pub struct Inner {
+        #[garde(length(min = 2))]
+        pub label: String,
+        #[garde(range(min = 1))]
+        pub count: u32,
+    }
+    #[derive(Debug, Deserialize, Validate)]
+    pub struct Root {
+        #[garde(skip)]
+        #[serde(default)]
+        #[allow(dead_code)]
+        pub defaults: serde::de::IgnoredAny,
+        #[garde(length(min = 2))]
+        pub name: String,
+        #[garde(range(min = 1))]
+        pub level: u32,
+        #[garde(dive)]
+        pub inner: Inner,
+        #[garde(dive)]
+        #[serde(rename = "item-list")]
+        pub item_list: Vec<Item>,
+    }
+}
+mod v2 {
+    use serde::Deserialize;
+    use validator::Validate;
+    #[derive(Debug, Deserialize, Validate)]
+    #[serde(rename_all = "camelCase")]
+    pub struct Item {
+        #[validate(length(min = 2))]
+        pub item_name: String,
+        #[validate(range(max = 9))]
+        pub sha_sum: u32,
+    }
+    #[derive(Debug, Deserialize, Validate)]
+    pub struct Inner {
+        #[validate(length(min = 2))]
+        pub label: String,
+        #[validate(range(min = 1))]
+        pub count: u32,
+    }
+    #[derive(Debug, Deserialize, Validate)]
+    pub struct Root {
+        #[serde(default)]
+        #[allow(dead_code)]
+        pub defaults: serde::de::IgnoredAny,
+        #[validate(length(min = 2))]
+        pub name: String,
+        #[validate(range(min = 1))]
+        pub level: u32,
+        #[validate(nested)]
+        pub inner: Inner,
+        #[validate(nested)]
+        #[serde(rename = "item-list")]
+        pub item_list: Vec<Item>,
+    }
+}
+
+/// a document for g2::Root / v2::Root: `level`, `inner` and `item-list` are each given directly or merged in
+fn gen_doc2(rng: &mut Rng) -> GenDoc {
+    let mut lines: Vec<String> = Vec::new();
+    let mut violated: Vec<(String, (usize, usize), (usize, usize))> = Vec::new();
+    let merged: Vec<bool> = (0..3).map(|_| rng.chance(1, 2)).collect();
+    let any_merged = merged.iter().any(|m| *m);
+    let n_items = 1 + rng.below(4);
+    let level_bad = rng.chance(1, 2);
+    let label_bad = rng.chance(1, 2);
+    let count_bad = rng.chance(1, 3);
+    let items: Vec<(bool, bool)> = (0..n_items).map(|_| (rng.chance(1, 3), rng.chance(1, 3))).collect();
+    // positions of the values where they are written
+    let mut pos: std::collections::BTreeMap<String, (usize, usize)> = Default::default();
+    let mut block = |lines: &mut Vec<String>, indent: usize, which: usize| {
+        let pad = " ".repeat(indent);
+        match which {
+            0 => {
+                lines.push(format!("{pad}level: {}", if level_bad { 0 } else { 3 }));
+                pos.insert("level".into(), (lines.len(), indent + 8));
+            }
+            1 => {
+                lines.push(format!("{pad}inner:"));
+                lines.push(format!("{pad}  label: {}", if label_bad { "y" } else { "yy" }));
+                pos.insert("inner.label".into(), (lines.len(), indent + 10));
+                lines.push(format!("{pad}  count: {}", if count_bad { 0 } else { 4 }));
+                pos.insert("inner.count".into(), (lines.len(), indent + 10));
+            }
+            _ => {
+                lines.push(format!("{pad}item-list:"));
+                for (i, (nb, sb)) in items.iter().enumerate() {
+                    lines.push(format!("{pad}  - itemName: {}", if *nb { "a" } else { "ab" }));
+                    pos.insert(format!("item_list[{i}].item_name"), (lines.len(), indent + 15));
+                    lines.push(format!("{pad}    shaSum: {}", if *sb { 77 } else { 7 }));
+                    pos.insert(format!("item_list[{i}].sha_sum"), (lines.len(), indent + 13));
+                }
+            }
+        }
+    };
+    if any_merged {
+        lines.push("defaults: &d".into());
+        for w in 0..3 {
+            if merged[w] {
+                block(&mut lines, 2, w);
+            }
+        }
+    }
+    let name_bad = rng.chance(1, 3);
+    lines.push(format!("name: {}", if name_bad { "x" } else { "xx" }));
+    if name_bad {
+        violated.push(("name".into(), (lines.len(), 7), (lines.len(), 7)));
+    }
+    for w in 0..3 {
+        if !merged[w] {
+            block(&mut lines, 0, w);
+        }
+    }
+    let mut merge_pos = (0, 0);
+    if any_merged {
+        lines.push("<<: *d".into());
+        merge_pos = (lines.len(), 5);
+    }
+    let mut want = |path: String, bad: bool, which: usize| {
+        if bad {
+            let def = pos[&path];
+            violated.push((path, if merged[which] { merge_pos } else { def }, def));
+        }
+    };
+    want("level".into(), level_bad, 0);
+    want("inner.label".into(), label_bad, 1);
+    want("inner.count".into(), count_bad, 1);
+    for (i, (nb, sb)) in items.iter().enumerate() {
+        want(format!("item_list[{i}].item_name"), *nb, 2);
+        want(format!("item_list[{i}].sha_sum"), *sb, 2);
+    }
+    GenDoc { text: lines.join("\n") + "\n", violated }
+}
+
 /// one generated document: text, and for every field path the expected (use line, use col, def line, def col)
 struct GenDoc {
     text: String,
@@ -243,7 +392,7 @@ fn parse_report(msg: &str) -> Vec<(String, usize, usize)> {
 
 fn norm(p: &str) -> String {
     // the reported leaf is the YAML spelling, the expected path uses the Rust field names of the first segment
-    p.replace("firstItem", "first_item")
+    p.replace("firstItem", "first_item").replace("itemName", "item_name").replace("shaSum", "sha_sum").replace("item-list", "item_list")
 }
 
 fn check_result(ctx: &mut Ctx, which: &str, d: &GenDoc, res: Result<String, serde_saphyr::Error>, plain: &Result<String, String>, replay: &serde_json::Value) {
@@ -332,6 +481,18 @@ pub fn run(ctx: &mut Ctx) {
         check_result(ctx, "validator from_reader", &d, serde_saphyr::from_reader_with_options_validate::<_, v::Cfg>(std::io::Cursor::new(d.text.as_bytes().to_vec()), opts()).map(|v| format!("{v:?}")), &plain_v, &replay);
         ctx.count(if d.violated.is_empty() { "doc_valid" } else { "doc_violating" });
     }
+    // containers that reach their parent through a merge; renamed leaves inside sequences of several elements
+    for _ in 0..(if quick { 250 } else { 4000 }) {
+        let d = gen_doc2(&mut rng);
+        let replay = json!({"kind": "validated2", "text": d.text, "violated": d.violated.iter().map(|x| x.0.clone()).collect::<Vec<_>>()});
+        let plain_g = serde_saphyr::from_str_with_options::<g2::Root>(&d.text, opts()).map(|v| format!("{v:?}")).map_err(|e| e.to_string());
+        let plain_v = serde_saphyr::from_str_with_options::<v2::Root>(&d.text, opts()).map(|v| format!("{v:?}")).map_err(|e| e.to_string());
+        check_result(ctx, "garde from_str (merged containers)", &d, serde_saphyr::from_str_with_options_valid::<g2::Root>(&d.text, opts()).map(|v| format!("{v:?}")), &plain_g, &replay);
+        check_result(ctx, "validator from_str (merged containers)", &d, serde_saphyr::from_str_with_options_validate::<v2::Root>(&d.text, opts()).map(|v| format!("{v:?}")), &plain_v, &replay);
+        check_result(ctx, "garde from_reader (merged containers)", &d, serde_saphyr::from_reader_with_options_valid::<_, g2::Root>(std::io::Cursor::new(d.text.as_bytes().to_vec()), opts()).map(|v| format!("{v:?}")), &plain_g, &replay);
+        check_result(ctx, "validator from_slice (merged containers)", &d, serde_saphyr::from_slice_with_options_validate::<v2::Root>(d.text.as_bytes(), opts()).map(|v| format!("{v:?}")), &plain_v, &replay);
+        ctx.count(if d.violated.is_empty() { "doc2_valid" } else { "doc2_violating" });
+    }
     // values inside enum variant payloads, options and maps (garde)
     for (text, want) in [
         ("kind:\n  A:\n    name: ab\n    level: 5\nopt:\n  name: x\n  level: 3\nmap:\n  k1:\n    name: y\n    level: 2\n", vec![("kind[0].name", 3, 11), ("opt.name", 6, 9), ("map.k1.name", 10, 11)]),
@@ -383,6 +544,28 @@ pub fn run(ctx: &mut Ctx) {
                         ctx.fail("stream-report-incomplete", format!("[{which}] {want} violated fields in documents {failing:?}, {} reported: {msg}", rep.len()), replay.clone());
                     }
                 }
+            }
+        }
+    }
+    // the streaming iterators: one result per document, an error exactly for the violating ones, and the
+    // stream goes on after a document that fails validation
+    for _ in 0..(if quick { 60 } else { 800 }) {
+        let docs: Vec<GenDoc> = (0..(2 + rng.below(4))).map(|_| gen_doc(&mut rng)).collect();
+        let text: String = docs.iter().map(|d| format!("---\n{}", d.text)).collect();
+        let failing: Vec<bool> = docs.iter().map(|d| !d.violated.is_empty()).collect();
+        let replay = json!({"kind": "stream_iter", "text": text, "failing_documents": failing});
+        ctx.direct_evaluations += 4;
+        let mut r1 = std::io::Cursor::new(text.as_bytes().to_vec());
+        let got_g: Vec<bool> = serde_saphyr::read_valid::<_, g::Cfg>(&mut r1).take(docs.len() + 3).map(|r| r.is_err()).collect();
+        let mut r2 = std::io::Cursor::new(text.as_bytes().to_vec());
+        let got_v: Vec<bool> = serde_saphyr::read_validate::<_, v::Cfg>(&mut r2).take(docs.len() + 3).map(|r| r.is_err()).collect();
+        let mut r3 = std::io::Cursor::new(text.as_bytes().to_vec());
+        let got_go: Vec<bool> = serde_saphyr::read_with_options_valid::<_, g::Cfg>(&mut r3, opts()).take(docs.len() + 3).map(|r| r.is_err()).collect();
+        let mut r4 = std::io::Cursor::new(text.as_bytes().to_vec());
+        let got_vo: Vec<bool> = serde_saphyr::read_with_options_validate::<_, v::Cfg>(&mut r4, opts()).take(docs.len() + 3).map(|r| r.is_err()).collect();
+        for (which, got) in [("garde read_valid", got_g), ("validator read_validate", got_v), ("garde read_with_options_valid", got_go), ("validator read_with_options_validate", got_vo)] {
+            if got != failing {
+                ctx.fail("stream-iterator-results-differ", format!("[{which}] per-document failure expected {failing:?}, got {got:?}"), replay.clone());
             }
         }
     }
